@@ -85,6 +85,11 @@ def gen_configs(ctx):
                 "top_extra": None})
     out.append({"servers": {"a": {"args": [], "env": {}, "timeout": "__absent__", "extra": None, "bare": True},
                             "b": {"args": ["--flag"], "env": ENV_POOL[3], "timeout": 5, "extra": None}}, "top_extra": None})
+    # the program lives under a path with spaces and quotes, and there are no arguments at all (absent / empty list)
+    out.append({"servers": {"noargs": {"args": "__absent__", "env": None, "timeout": 5, "extra": None, "spaced": True},
+                            "emptyargs": {"args": [], "env": {"A": "b c"}, "timeout": "__absent__", "extra": None, "spaced": True},
+                            "someargs": {"args": ["--db", "my file.db"], "env": {}, "timeout": 5, "extra": None, "spaced": True}},
+                "top_extra": None})
     return out
 
 
@@ -204,6 +209,11 @@ def materialise(tmp: str, cfg: Dict[str, Any]) -> Dict[str, Any]:
                 f.write(src)
             os.chmod(decoy, 0o755)
             spec_env = dict(spec["env"] or {}, PATH=f"{bindir}:/usr/bin:/bin")
+        elif spec.get("spaced"):
+            # an installation directory whose name holds spaces and quote characters: the command is one program path
+            d = os.path.join(tmp, f"My Servers {i}", "it's \"here\"")
+            os.makedirs(d, exist_ok=True)
+            w = os.path.join(d, f"witness server {i}.py")
         else:
             w = os.path.join(tmp, f"witness_{i}.py")
         with open(w, "w") as f:
